@@ -90,6 +90,8 @@ def first_coq_error(out):
 
 def evaluate(prop, cases):
     """run the implementation and the model on the cases; returns per-case records"""
+    if hasattr(prop, "prepare"):
+        prop.prepare(cases)
     impl = C.run_harness(prop.harness_mode, [(c.src, c.mods) for c in cases], prop.budget, prop.depth, tag=prop.id)
     recs = []
     items = []
